@@ -148,12 +148,14 @@ CopyLoop(k, img, end, dstSize, flags) ==
                            ELSE IF p >= s.off + s.buf /\ p < s.off + s.buf + pad THEN 0
                            ELSE img[p]]
             IN CopyLoop(k + 1, img1, Max(end, s.off + s.buf + pad), dstSize, flags)
-RECURSIVE ToRleAcc(_, _, _, _, _)
-ToRleAcc(img, p, n, b, len) ==        \* run of `len` bytes `b` ends just before position p
-  IF p >= n THEN << <<len, b>> >>
-  ELSE IF img[p] = b THEN ToRleAcc(img, p + 1, n, b, len + 1)
-  ELSE << <<len, b>> >> \o ToRleAcc(img, p + 1, n, img[p], 1)
-ToRle(img, p, n) == IF n = 0 THEN <<>> ELSE ToRleAcc(img, 1, n, img[0], 1)
+(* run-length encoding of img[0 .. n-1]; recursion depth = number of runs *)
+ToRle(img, p0, n) ==
+  LET starts == {p \in 0 .. n - 1 : p = 0 \/ img[p] # img[p - 1]}
+      NextStart(p) == LET later == {q \in starts : q > p} IN
+                      IF later = {} THEN n ELSE CHOOSE q \in later : \A r \in later : q <= r
+      RECURSIVE Build(_)
+      Build(p) == IF p >= n THEN <<>> ELSE << <<NextStart(p) - p, img[p]>> >> \o Build(NextStart(p))
+  IN Build(0)
 CopyResult(dstSize, flags) ==
   LET r == CopyLoop(1, [p \in 0 .. dstSize - 1 |-> C!U], 0, dstSize, flags)
       img == IF ~r.err /\ r.end < dstSize /\ C!HasFlag(flags, C!PadTarget)
